@@ -260,6 +260,16 @@ func Eq(a, b *Term) *Term {
 	if a.S == b.S {
 		return True
 	}
+	if a.K == KBV && a.W == 64 {
+		// len(s) == 0 for a string s: decided on the string (a Go string is far shorter than 2^64 bytes, so the
+		// 64-bit view of str.len cannot wrap to 0)
+		for _, pr := range [][2]*Term{{a, b}, {b, a}} {
+			x, c := pr[0], pr[1]
+			if c.Const && c.U == 0 && strings.HasPrefix(x.Op, "(_ int2bv") && len(x.Args) == 1 && x.Args[0].Op == "str.len" && len(x.Args[0].Args) == 1 {
+				return Eq(x.Args[0].Args[0], StrLit(""))
+			}
+		}
+	}
 	if a.K == KStr {
 		// both sides are sequences of single characters (literals, str.from_code of a byte, ite between such):
 		// compare them position by position as bytes — no string theory needed
